@@ -201,6 +201,7 @@ func framing(r *rep.R) {
 				}
 				var b []byte
 				r.Add("framing_executions", 1)
+				r.Add("transitions", int64(len(st.msgs)))
 				r.Add("evaluations", 1)
 				for k, want := range st.msgs {
 					got := st.mk()
@@ -262,6 +263,7 @@ type Case struct {
 	Batches  [][]PtSpec // batch mode
 	BTags    int        // batch mode: tags of the batch
 	ByName   bool
+	ZeroHint bool  // batch mode: the BeginBatch size hint is 0 although the batch has points (what where/eval emit)
 	Pattern  []int // fragmentation pattern of both byte streams
 	SnapAt   int   // request a task snapshot before point #SnapAt (-1 = never)
 	SleepAt  int   // let 3s of virtual time pass (keepalives) before point #SleepAt (-1 = never)
@@ -298,8 +300,15 @@ func fullItems(its []kit.Item) []string {
 	return s
 }
 
+func hint(c Case, n int) int {
+	if c.ZeroHint {
+		return 0
+	}
+	return n
+}
+
 func describe(c Case) string {
-	return fmt.Sprintf("%s%s points %v batches %v fragmentation %v snapshot-at %d sleep-at %d", c.Mode, groupings[c.Grouping], c.Pts, c.Batches, c.Pattern, c.SnapAt, c.SleepAt)
+	return fmt.Sprintf("%s%s points %v batches %v (size hint 0: %v) fragmentation %v snapshot-at %d sleep-at %d", c.Mode, groupings[c.Grouping], c.Pts, c.Batches, c.ZeroHint, c.Pattern, c.SnapAt, c.SleepAt)
 }
 
 func runEcho(t *testing.T, c Case, r *rep.R) []problem {
@@ -385,7 +394,7 @@ func runEcho(t *testing.T, c Case, r *rep.R) []problem {
 				for k, v := range tagSets[c.BTags] {
 					bt[k] = v
 				}
-				if err := cols[0].CollectBatch(edge.NewBufferedBatchMessage(edge.NewBeginBatchMessage("m", bt, c.ByName, times[(i+1)%len(times)], len(bps)), bps, edge.NewEndBatchMessage())); err != nil {
+				if err := cols[0].CollectBatch(edge.NewBufferedBatchMessage(edge.NewBeginBatchMessage("m", bt, c.ByName, times[(i+1)%len(times)], hint(c, len(bps))), bps, edge.NewEndBatchMessage())); err != nil {
 					startErr = err.Error()
 				}
 				kit.Wait()
@@ -419,6 +428,7 @@ func runEcho(t *testing.T, c Case, r *rep.R) []problem {
 	if r != nil {
 		r.Add("evaluations", 1)
 		r.Add("echo_executions", 1)
+		r.Add("transitions", int64(len(c.Pts)+len(c.Batches)+1))
 	}
 	if pan != nil {
 		return []problem{{"panic:" + cls, describe(c) + ": " + rep.Short(fmt.Sprint(pan))}}
@@ -467,7 +477,7 @@ func runEcho(t *testing.T, c Case, r *rep.R) []problem {
 
 func TestCheck(t *testing.T) {
 	r := rep.New("C19", "model_checking",
-		"UDF boundary on the real code. (A) framing: every protocol message kind plus point messages whose encoded size is 127/128/129/16383/16384/16385 bytes, written with agent.WriteMessage as streams of 1-3 messages and read back with agent.ReadMessage through a reader that fragments the byte stream: ALL compositions for streams up to 13 bytes, otherwise all sets of up to 2 cut points out of {1..8, every message boundary +-3} plus fixed chunk sizes 1/2/3/7; three reader variants (bare, bufio-wrapped as the daemon does, bare returning the last bytes together with io.EOF). (B) fidelity: a real task src@echo()|log next to src|log, the UDF being kapacitor.UDFSocket + udf.Server talking over in-memory pipes to an in-process agent built on udf/agent that echoes; every point of the alphabet 6 field sets (all four types, empty string, extremes) x 3 tag sets (separators in values) x 4 time stamps (1ns, negative, year 2200) x 5 groupings, and every batch of up to 2 such points x batch tags x byName, with the byte streams fragmented in 4 patterns: the echoed sink must equal the raw sibling's in name, db, rp, group, dimensions, tags, fields and types, time, batch boundaries and order. (C) message-level interleavings: 3 data items with a task snapshot requested before/after each of them x 3s of virtual time (keepalive round trips, timeout 2s) before/after each of them: data unchanged, snapshot bytes equal the bytes the UDF supplied")
+		"UDF boundary on the real code. (A) framing: every protocol message kind plus point messages whose encoded size is 127/128/129/16383/16384/16385 bytes, written with agent.WriteMessage as streams of 1-3 messages and read back with agent.ReadMessage through a reader that fragments the byte stream: ALL compositions for streams up to 13 bytes, otherwise all sets of up to 2 cut points out of {1..8, every message boundary +-3} plus fixed chunk sizes 1/2/3/7; three reader variants (bare, bufio-wrapped as the daemon does, bare returning the last bytes together with io.EOF). (B) fidelity: a real task src@echo()|log next to src|log, the UDF being kapacitor.UDFSocket + udf.Server talking over in-memory pipes to an in-process agent built on udf/agent that echoes; every point of the alphabet 6 field sets (all four types, empty string, extremes) x 3 tag sets (separators in values) x 4 time stamps (1ns, negative, year 2200) x 5 groupings, and every batch of up to 2 such points x batch tags x byName x size hint (exact / 0), with the byte streams fragmented in 4 patterns: the echoed sink must equal the raw sibling's in name, db, rp, group, dimensions, tags, fields and types, time, batch boundaries and order. (C) message-level interleavings: 3 data items with a task snapshot requested before/after each of them x 3s of virtual time (keepalive round trips, timeout 2s) before/after each of them: data unchanged, snapshot bytes equal the bytes the UDF supplied")
 	defer r.Write()
 	r.Assumption("goroutine-level races inside udf.Server (select between data and control requests both ready) are not varied: requests are issued one at a time to quiescence")
 	r.Assumption("NaN/Inf float fields cannot enter through line protocol and are not in the alphabet")
@@ -536,6 +546,13 @@ func TestCheck(t *testing.T) {
 					cases = append(cases, c)
 				}
 			}
+		}
+	}
+	// every batch case again with a size hint of 0
+	for _, c := range append([]Case(nil), cases...) {
+		if c.Mode == "batch" {
+			c.ZeroHint = true
+			cases = append(cases, c)
 		}
 	}
 	r.Note("echo_cases", len(cases))
